@@ -637,6 +637,8 @@ Proof.
     + destruct (map_load (smap s) (hash_tuple t)) as [i|]; [|inversion Hstep; subst; simpl; cons_done].
       destruct (Nat.eqb i id); inversion Hstep; subst; simpl; cons_done.
       rewrite sum_measure_upd_same by reflexivity. cons_done.
+    + destruct (map_load (smap s) (hash_tuple t)) as [i|]; inversion Hstep; subst; simpl; cons_done.
+      rewrite sum_measure_upd_same by reflexivity. cons_done.
   - inversion Hstep; subst; simpl; cons_done.
   - inversion Hstep; subst; simpl. rewrite sum_measure_upd_same by reflexivity. cons_done.
   - (* PE0 *)
@@ -1027,4 +1029,147 @@ Lemma reg_no_panic os sched :
 Proof.
   intros x i th G. pose proof (rrun_sched_inv Repaired sched _ (RInv0 Repaired os)) as [_ _ NP]. fold x in NP.
   specialize (NP eq_refl). rewrite Forall_forall in NP. apply NP. eapply nth_error_In; eauto.
+Qed.
+
+(* ================================================================= a removed handle ends up stale *)
+(* UnregisterSeries removes the entry (CompareAndDelete), then releases the slot, then marks the handle stale.
+   Between the first and the last step the unregistering thread sits in PU2/PU3 with that handle. *)
+Definition pend (id : nat) (th : thread) : Z :=
+  match t_pc th with PU2 i | PU3 i => if Nat.eqb i id then 1 else 0 | _ => 0 end.
+Definition rs_ok (s : shared) (id : nat) (n : Z) : Prop :=
+  forall h, nth_error (hs s) id = Some h -> h_retired h = true -> h_stale h = true \/ 0 < n.
+
+Lemma rs_ok_same s s' id n n' : hs s' = hs s -> n' = n -> rs_ok s id n -> rs_ok s' id n'.
+Proof. intros E -> H h G. rewrite E in G. auto. Qed.
+Lemma rs_ok_upd s i f id n :
+  (forall h, h_retired (f h) = h_retired h) -> (forall h, h_stale h = true -> h_stale (f h) = true) ->
+  rs_ok s id n -> rs_ok (set_hs s (upd_nth (hs s) i f)) id n.
+Proof.
+  intros Fr Fs H h. simpl. rewrite nth_upd. destruct (Nat.eqb i id); [|apply H].
+  destruct (nth_error (hs s) id) as [h0|] eqn:G; simpl; [|discriminate]. intros E; inversion E; subst.
+  rewrite Fr. intros Hr. destruct (H h0 G Hr); auto.
+Qed.
+
+Lemma rs_ok_publish c s t id n : rs_ok s id n -> rs_ok (fst (publish c s t)) id n.
+Proof.
+  intros H h G Hr. unfold publish in G. simpl in G.
+  destruct (Nat.lt_ge_cases id (length (hs s))).
+  - rewrite nth_error_app1 in G by assumption. apply (H h G Hr).
+  - rewrite nth_error_app2 in G by assumption. destruct (id - length (hs s))%nat as [|k]; simpl in G; [|destruct k; discriminate].
+    inversion G; subst. simpl in Hr. discriminate.
+Qed.
+
+Lemma tstep_pend c s th s' th' id R :
+  c_variant c = Repaired -> 0 <= R -> tstep c s th = (s', th') ->
+  rs_ok s id (pend id th + R) -> rs_ok s' id (pend id th' + R).
+Proof.
+  intros Hv HR Hstep H. unfold tstep in Hstep.
+  destruct (t_pc th) eqn:Epc;
+    try (match type of Hstep with (_, _) = _ => inversion Hstep; subst; clear Hstep;
+           eapply rs_ok_same; [| |exact H]; [reflexivity | unfold pend; rewrite Epc; reflexivity] end).
+  - (* PIdle *)
+    assert (P0 : pend id th = 0) by (unfold pend; rewrite Epc; reflexivity). rewrite P0 in H.
+    destruct (t_prog th) as [|o rest] eqn:Eprog.
+    + inversion Hstep; subst. eapply rs_ok_same; [| |exact H]; [reflexivity | unfold pend; rewrite Epc; reflexivity].
+    + unfold start_op in Hstep. destruct o;
+      repeat match type of Hstep with
+             | context [match ?x with _ => _ end] => destruct x eqn:?
+             | context [if ?x then _ else _] => destruct x eqn:?
+             end; inversion Hstep; subst; clear Hstep; (eapply rs_ok_same; [| |exact H]; reflexivity).
+  - (* PR1 *)
+    assert (P0 : pend id th = 0) by (unfold pend; rewrite Epc; reflexivity). rewrite P0 in H. rewrite Hv in Hstep.
+    destruct (capped c && (c_cap c <=? cnt s)); inversion Hstep; subst; (eapply rs_ok_same; [| |exact H]; reflexivity).
+  - (* PR2 *)
+    assert (P0 : pend id th = 0) by (unfold pend; rewrite Epc; reflexivity). rewrite P0 in H.
+    repeat match type of Hstep with
+           | context [match ?x with _ => _ end] => destruct x eqn:?
+           | context [if ?x then _ else _] => destruct x eqn:?
+           end; try (inversion Hstep; subst; clear Hstep; (eapply rs_ok_same; [| |exact H]; reflexivity)).
+    inversion Hstep; subst; clear Hstep.
+    match goal with E : publish c s t = (?a, _) |- _ => replace a with (fst (publish c s t)) by (rewrite E; reflexivity) end.
+    apply rs_ok_publish. exact H.
+  - (* PR4 *)
+    assert (P0 : pend id th = 0) by (unfold pend; rewrite Epc; reflexivity). rewrite P0 in H.
+    destruct (capped c && (c_cap c <? cnt s)); inversion Hstep; subst; (eapply rs_ok_same; [| |exact H]; reflexivity).
+  - (* PQ2 *)
+    assert (P0 : pend id th = 0) by (unfold pend; rewrite Epc; reflexivity). rewrite P0 in H.
+    inversion Hstep; subst; clear Hstep.
+    destruct (capped c && (c_cap c <? cnt s + 1)); (eapply rs_ok_same; [| |exact H]; reflexivity).
+  - (* PQ3 *)
+    assert (P0 : pend id th = 0) by (unfold pend; rewrite Epc; reflexivity). rewrite P0 in H.
+    repeat match type of Hstep with
+           | context [match ?x with _ => _ end] => destruct x eqn:?
+           | context [if ?x then _ else _] => destruct x eqn:?
+           end; try (inversion Hstep; subst; clear Hstep; (eapply rs_ok_same; [| |exact H]; reflexivity)).
+    inversion Hstep; subst; clear Hstep.
+    match goal with E : publish c s t = (?a, _) |- _ => replace a with (fst (publish c s t)) by (rewrite E; reflexivity) end.
+    apply rs_ok_publish. exact H.
+  - (* PU1 *)
+    assert (P0 : pend id th = 0) by (unfold pend; rewrite Epc; reflexivity). rewrite P0 in H. rewrite Hv in Hstep.
+    destruct (map_load (smap s) (hash_tuple t)) as [i|];
+      [|inversion Hstep; subst; (eapply rs_ok_same; [| |exact H]; reflexivity)].
+    destruct (Nat.eqb i id0); inversion Hstep; subst; clear Hstep;
+      [|eapply rs_ok_same; [| |exact H]; reflexivity].
+    intros h. simpl. rewrite nth_upd. unfold pend; simpl.
+    destruct (Nat.eqb_spec id0 id).
+    + intros _ _. right. lia.
+    + intros G Hr. apply (H h G Hr).
+  - (* PU3 *)
+    inversion Hstep; subst; clear Hstep.
+    assert (P1 : pend id (finish th (ResB true)) = 0) by reflexivity. rewrite P1.
+    assert (P0 : pend id th = if Nat.eqb id0 id then 1 else 0) by (unfold pend; rewrite Epc; reflexivity). rewrite P0 in H.
+    intros h. simpl. rewrite nth_upd. destruct (Nat.eqb_spec id0 id).
+    + destruct (nth_error (hs s) id); simpl; [|discriminate]. intros E _; inversion E; subst. left; reflexivity.
+    + intros G Hr. apply (H h G Hr).
+  - (* PE0 *)
+    assert (P0 : pend id th = 0) by (unfold pend; rewrite Epc; reflexivity). rewrite P0 in H.
+    repeat match type of Hstep with
+           | context [match ?x with _ => _ end] => destruct x eqn:?
+           | context [if ?x then _ else _] => destruct x eqn:?
+           end; inversion Hstep; subst; clear Hstep; (eapply rs_ok_same; [| |exact H]; reflexivity).
+  - (* PE1 *)
+    assert (P0 : pend id th = 0) by (unfold pend; rewrite Epc; reflexivity). rewrite P0 in H.
+    destruct (get_handle s id0); inversion Hstep; subst; clear Hstep;
+      [|eapply rs_ok_same; [| |exact H]; reflexivity].
+    apply rs_ok_upd; auto.
+Qed.
+
+Lemma pend_nonneg id th : 0 <= pend id th.
+Proof. unfold pend. destruct (t_pc th); try lia; destruct (Nat.eqb _ _); lia. Qed.
+
+Definition RsInv (x : sys) : Prop := forall id, rs_ok (sh x) id (tsum (pend id) (ths x)).
+
+Lemma sys_step_rs c x i : c_variant c = Repaired -> RsInv x -> RsInv (sys_step c x i).
+Proof.
+  intros Hv H id. specialize (H id). unfold sys_step.
+  destruct (nth_error (ths x) i) as [th|] eqn:G; [|exact H].
+  destruct (finished th); [exact H|]. destruct (tstep c (sh x) th) as [s' th'] eqn:St. simpl.
+  rewrite (tsum_upd (pend id) _ _ _ th' G).
+  pose proof (tsum_ge (pend id) _ _ _ (pend_nonneg id) G) as Ge.
+  replace (tsum (pend id) (ths x) - pend id th + pend id th') with (pend id th' + (tsum (pend id) (ths x) - pend id th)) by ring.
+  eapply (tstep_pend c _ _ _ _ id _ Hv); [lia | exact St|].
+  replace (pend id th + (tsum (pend id) (ths x) - pend id th)) with (tsum (pend id) (ths x)) by ring. exact H.
+Qed.
+
+Lemma run_sched_rs c sched : forall x, c_variant c = Repaired -> RsInv x -> RsInv (run_sched c x sched).
+Proof. induction sched as [|i r IH]; intros x Hv H; simpl; [exact H|]. apply IH; auto. apply sys_step_rs; auto. Qed.
+
+(* every schedule of the repaired machine: at quiescence a series handle is either in the series map (snapshots show it)
+   or marked stale (everything emitted through it from now on is a stale_handle_emit) — a handle removed from the map is
+   always the one that gets marked stale.  With C20_conc_conservation: nothing any client can still do is unaccounted. *)
+Lemma conc_removed_is_stale c progs sched :
+  c_variant c = Repaired ->
+  let x := run_sched c (sys0 progs) sched in
+  quiescent x = true ->
+  forall id h, get_handle (sh x) id = Some h -> in_map (sh x) id = true \/ h_stale h = true.
+Proof.
+  intros Hv x Q id h G.
+  assert (R0 : RsInv (sys0 progs)) by (intros i h0 G0; destruct i; discriminate).
+  pose proof (run_sched_rs c sched _ Hv R0 id) as R. fold x in R.
+  pose proof (run_sched_inv c sched _ Hv (Inv0 c progs)) as [HS _ _ _]. fold x in HS.
+  unfold get_handle in G. destruct (h_retired h) eqn:Hr.
+  - right. destruct (R h G Hr) as [S|P]; [exact S|].
+    rewrite (quiescent_tsum (pend id) x Q) in P; [lia|].
+    intros th F. unfold pend. destruct (finished_inv _ F) as [-> _]. reflexivity.
+  - left. apply in_map_ids. eapply si_noorph; eauto.
 Qed.
